@@ -37,7 +37,8 @@ package encapsulation
 // WriteData: on success the bytes appended to the writer are prefix(len(data)) ++ data.
 //@ func WriteData(w io.Writer, data []byte) (total int, err error)
 //@   props C09
-//@   requires w != nil && 0 <= w.n && w.n <= 1<<40
+//@   requires w != nil
+//@   assumes 0 <= w.n && w.n <= 1<<40
 //@   ensures len(data) >= 1<<20 ==> err == ErrTooLong && total == 0 && w.n == old(w.n)
 //@   ensures w.n == old(w.n) + total
 //@   ensures err == nil ==> len(data) < 1<<20 && total == plen(len(data)) + len(data)
@@ -52,7 +53,8 @@ package encapsulation
 //@ func WritePadding(w io.Writer, n int) (total int, err error)
 //@   props C09
 //@   panics when n < 0
-//@   requires n >= 0 && w != nil && 0 <= w.n && w.n <= 1<<40
+//@   requires n >= 0 && w != nil
+//@   assumes 0 <= w.n && w.n <= 1<<40
 //@   loop 1 invariant n >= 0 && total >= 0 && total + n == entry(n) && w.n == old(w.n) + total
 //@   at call Write#1 assert len(prefix) >= 1 && len(prefix) <= 3 && p >= 0 && total + n + len(prefix) + p == entry(n)
 //@   at call Write#1 assert {prefix1} len(prefix) == 1 ==> hdr1(prefix[0], false) && dec1(prefix[0]) == p
@@ -79,7 +81,8 @@ package encapsulation
 //
 //@ func ReadData(r io.Reader) (p []byte, err error)
 //@   props C09
-//@   requires r != nil && 0 <= r.pos && r.pos <= r.L && r.L <= 1<<40
+//@   requires r != nil
+//@   assumes 0 <= r.pos && r.pos <= r.L && r.L <= 1<<40
 //@   at call ReadFull#1 ghost q = r.pos
 //@   loop 1 invariant 0 <= r.pos && r.pos <= r.L
 //@   loop 1 invariant {skip-padding} firstData(r.data, r.L, r.pos) == firstData(r.data, r.L, old(r.pos))
